@@ -8,7 +8,7 @@ Extracted:
     grpc message) -- Model/ServerCall.v interprets this list, so order, guards, status codes and
     message texts of the early aborts come from the source;
   * _abort: the header names it emits and "RST when closable" (shape check);
-  * Stream.__aexit__: the status/message chosen for Exception, for the unary-reply check and for the
+  * Stream.__aexit__: the guard of the GRPCError branch, the status/message chosen for Exception, for the unary-reply check and for the
     normal exit, and that other BaseExceptions are propagated;
   * the `except asyncio.TimeoutError` clause of request_handler: the status raised;
   * the precondition checks (`if ...: raise ProtocolError`) of the four sending calls, in order, as
@@ -204,8 +204,12 @@ def aexit_facts(fn, status):
     if u(top.test) != 'exc_val is not None':
         raise Unsupported('__aexit__ test ' + u(top.test))
     inner = [s for s in top.body if isinstance(s, ast.If)]
-    if len(inner) != 1 or u(inner[0].test) != 'isinstance(exc_val, GRPCError)':
-        raise Unsupported('__aexit__ GRPCError branch')
+    # the GRPCError branch is taken unless the error says OK on a unary reply without its message; such an
+    # error falls through to the Exception branch (repaired defect D42)
+    if len(inner) != 1 or u(inner[0].test) != (
+            'isinstance(exc_val, GRPCError) and (not (exc_val.status is Status.OK and '
+            '(not self._cardinality.server_streaming) and (not self._send_message_done)))'):
+        raise Unsupported('__aexit__ GRPCError branch: ' + (u(inner[0].test) if inner else '-'))
     g = {u(s.targets[0]): u(s.value) for s in inner[0].body if isinstance(s, ast.Assign)}
     if g != {'status': 'exc_val.status', 'status_message': 'exc_val.message', 'status_details': 'exc_val.details'}:
         raise Unsupported('__aexit__ GRPCError assignments %r' % g)
@@ -356,6 +360,9 @@ def generate(repo):
     L.append('Definition aexit_exception : Z * option (list Z) := (%d, %s).' % (exc[0], opt_s(exc[1])))
     L.append('Definition aexit_unary_missing : Z * option (list Z) := (%d, %s).' % (unary[0], opt_s(unary[1])))
     L.append('Definition aexit_normal : Z * option (list Z) := (%d, %s).' % (ok[0], opt_s(ok[1])))
+    L.append('(* the GRPCError branch of __aexit__ excludes `status is OK and unary reply and no message sent`;')
+    L.append('   such an error is handled by the Exception branch *)')
+    L.append('Definition aexit_grpc_ok_unary_as_exception : bool := true.')
     L.append('(* request_handler, except asyncio.TimeoutError: status raised when cancel_failed / when cancelled *)')
     L.append('Definition deadline_status_failed : Z := %d.' % dl_failed)
     L.append('Definition deadline_status_cancelled : Z := %d.' % dl_cancelled)
